@@ -17,6 +17,7 @@ def run(ctx):
     ctx.undecided = "that the repaired value equals f(identifier) (interpolation arithmetic)."
     ctx.floor = 14
     P = ctx.prog
+    wrappers(ctx, ['keys::repairable::repair_share_part1', 'keys::repairable::repair_share_part2', 'keys::repairable::repair_share_part3'])
     f = ctx.anchor(RP + "repair_share_part1")
     if f:
         v = FnView.get(P, f)
